@@ -97,6 +97,12 @@ class VerifyCtx(FnCtx):
         self._count_fn = None
         self._loop_tables = {}
 
+    def assert_ordinal(self, node):
+        tab = self.__dict__.setdefault("_assert_tab", {})
+        if id(node) not in tab:
+            tab[id(node)] = f"{self.cur_fn}#{getattr(node, '_ordinal', 0)}" if self.depth else f"#{getattr(node, '_ordinal', 0)}"
+        return tab[id(node)]
+
     def loop_table(self, name, fnode):
         if name not in self._loop_tables:
             tab = {}
@@ -144,6 +150,9 @@ def verify_function(c, mutate=None, canary=False):
     if mutate is not None:
         fnode = mutate(fnode)
     cx = VerifyCtx(c, ex_src)
+    asserts = sorted([x for x in ast.walk(fnode) if isinstance(x, ast.Assert)], key=lambda x: (x.lineno, x.col_offset))
+    for k_, a_ in enumerate(asserts, 1):
+        a_._ordinal = k_
     insert_ghosts(fnode, c.ghosts, c.name)
     tab = {}
     for k, node in enumerate(loops_of(fnode), 1):
